@@ -1,6 +1,17 @@
-"""C03 — advertised coverage (files from the real writers and from the independent encoders)."""
-from . import containers
+"""C03 — advertised coverage: container readers (files from the real writers and from the independent encoders; exact for
+the formats that derive it from the tiles) and pipeline operations (whatever a lookup returns lies inside the advertised
+coverage: overlays, filter chains, from_debug incl. level 31)."""
+from . import common as C
+from . import containers, pipelines
 
 
 def run(tier, seed, replay):
-    return containers.run_family("C03", tier, seed, replay, also_indep=True)
+    run = C.Run("C03", tier, seed, "model_checking")
+    containers.run_family("C03", tier, seed, replay, also_indep=True, run=run, finish=False)
+    stages = [("mc/MC_C08.tla", "mc/MC_C08_three.cfg"), ("mc/MC_C08.tla", "mc/MC_C08_nested.cfg"),
+              ("mc/MC_C09.tla", "mc/MC_C09_%s.cfg" % tier)]
+    pipelines.run_pipes("C03", tier, seed, replay, stages,
+                        "pipeline operations: 3-source overlays (flat, nested), filter_zoom / filter_bbox chains over container "
+                        "sources and over from_debug (lookups on levels 0..3, 12 and 31): every returned tile lies inside the advertised "
+                        "coverage (clause cov_contains)", lambda c: c["tree"]["op"] != "leaf", run=run, finish=False)
+    return run.finish()
